@@ -2,6 +2,7 @@ package gostring
 
 import (
 	"bufio"
+	"encoding/hex"
 	"fmt"
 	"os"
 	"reflect"
@@ -16,10 +17,28 @@ import (
 // op id to k, or to a word (`panic1`: the derived function panicked, `compile-error`: the Go compiler
 // rejected the text). For every `op <id> gostring <T> <wire>` line on stdin it prints
 //
-//	<id> impl=<canonical observation of the evaluated value>;eq=<reflect.DeepEqual(original, evaluated)>
+//	<id> impl=<canonical observation of the evaluated value>;skel=<skeleton of the text>;eq=<reflect.DeepEqual(original, evaluated)>
 //
-// where the original is rebuilt from its wire form.
-func Main2(types map[string]reflect.Type, fns []func() reflect.Value, idxPath string) {
+// where the original is rebuilt from its wire form and the skeleton (see Skeleton) is computed from the
+// text itself (stage-1 answers file: lines `<id> impl=<hex of the text>`).
+func Main2(types map[string]reflect.Type, fns []func() reflect.Value, idxPath, stage1Path string) {
+	texts := map[string]string{}
+	if f1, err := os.Open(stage1Path); err == nil {
+		sc := bufio.NewScanner(f1)
+		sc.Buffer(make([]byte, 1<<20), 1<<28)
+		for sc.Scan() {
+			p := strings.SplitN(sc.Text(), " impl=", 2)
+			if len(p) == 2 {
+				if b, err := hex.DecodeString(p[1]); err == nil {
+					texts[p[0]] = string(b)
+				}
+			}
+		}
+		f1.Close()
+	} else {
+		fmt.Fprintln(os.Stderr, err)
+		os.Exit(2)
+	}
 	idx := map[string]string{}
 	f, err := os.Open(idxPath)
 	if err != nil {
@@ -45,7 +64,7 @@ func Main2(types map[string]reflect.Type, fns []func() reflect.Value, idxPath st
 			if perr != nil {
 				fmt.Fprintln(out, "bad-line")
 			} else if len(es) == 5 && es[0].Atom == "op" && es[2].Atom == "gostring" {
-				fmt.Fprintf(out, "%s impl=%s\n", es[1].Atom, eval(types, fns, idx[es[1].Atom], es[3].Atom, es[4]))
+				fmt.Fprintf(out, "%s impl=%s\n", es[1].Atom, eval(types, fns, idx[es[1].Atom], es[3].Atom, es[4], texts[es[1].Atom]))
 			}
 		}
 		if err != nil {
@@ -54,7 +73,7 @@ func Main2(types map[string]reflect.Type, fns []func() reflect.Value, idxPath st
 	}
 }
 
-func eval(types map[string]reflect.Type, fns []func() reflect.Value, k string, tn string, arg *rt.SExp) (res string) {
+func eval(types map[string]reflect.Type, fns []func() reflect.Value, k string, tn string, arg *rt.SExp, text string) (res string) {
 	defer func() {
 		if r := recover(); r != nil {
 			res = "panic2"
@@ -77,7 +96,7 @@ func eval(types map[string]reflect.Type, fns []func() reflect.Value, k string, t
 	got := fns[n]()
 	orig := rt.NewCtx().Build(t, arg)
 	eq := got.Type() == t && reflect.DeepEqual(orig.Interface(), got.Interface())
-	o := strings.ReplaceAll(rt.NewObs().Observe(got), " ", ",")
+	o := strings.ReplaceAll(rt.NewObs().Observe(got), " ", ",") + ";skel=" + Skeleton(text, t)
 	if eq {
 		return o + ";eq=1"
 	}
